@@ -13,6 +13,7 @@ def step (line : String) : String :=
   | "c03" :: args => PFile.runC03 args
   | "c04" :: args => PFile.runC04 args
   | "c06" :: args => PFile.runC06 args
+  | "c05h" :: args => Handles.runLine args
   | "bin" :: args => Camx.runBin args
   | _ => "err bad-stream"
 
